@@ -259,3 +259,263 @@ REFACTORS = {
         return not len(self.history) < self.opts['max_steps']""")]),
     ],
 }
+
+LEX = 'pytableaux/lang/lex.py'
+PARSING = 'pytableaux/lang/parsing.py'
+WRITING = 'pytableaux/lang/writing.py'
+SYMDATA = 'pytableaux/lang/_symdata.py'
+HYBRIDS = 'pytableaux/tools/hybrids.py'
+LINKED = 'pytableaux/tools/linked.py'
+COLLECT = 'pytableaux/lang/collect.py'
+NODES = 'pytableaux/proof/writers/doctree/nodes.py'
+TEXTW = 'pytableaux/proof/writers/doctree/text.py'
+
+MUTANTS.update({
+    'C08': [
+        ('mh-existential-both-n-and-f', [(MH, """        if len(valset) > 1:
+            return values.N
+        return values.F""", """        if len(valset) > 1:
+            return values.F
+        return values.F""")], 'C08.R2'),
+        ('value-of-operated-reversed-operands', [(MODELS, "            it = (self.value_of(s, **kw) for s in s)", "            it = (self.value_of(s, **kw) for s in reversed(s))")], 'C08.R1'),
+        ('possibility-uses-min', [(MODELS, """            if oper is oper.Possibility:
+                return maxceil(self.maxval, it, self.minval)""", """            if oper is oper.Possibility:
+                return minfloor(self.minval, it, self.maxval)""")], 'C08.R'),
+        ('finish-enforces-before-completing-frames', [(MODELS, """        self._complete_frames()
+        self.R.enforce()
+        self._finished = True""", """        self.R.enforce()
+        self._complete_frames()
+        self._finished = True""")], 'C08.R3'),
+        ('transitive-enforce-single-pass', [(MODELS, """            if not to_add:
+                break
+            for _ in map(self.add, to_add): pass
+
+class GlobalAccess""", """            for _ in map(self.add, to_add): pass
+            break
+
+class GlobalAccess""")], None),
+        ('complete-frames-skips-opaques', [(MODELS, """            for s in opaques:
+                if s not in frame.opaques:
+                    frame.opaques[s] = unass""", """            for s in opaques:
+                pass""")], 'C08.R3'),
+        ('unmodal-values-at-current-world', [(MODELS, "            yield value_of(s.lhs, world=w2)", "            yield value_of(s.lhs, world=world)")], None),
+        ('k3wq-quantifier-drops-kw', [(K3WQ, "        it = self._unquantify_values(s, **kw)", "        it = self._unquantify_values(s)")], 'C08.R1'),
+        ('maxceil-wrong-comparator', [(TOOLS, "    return _limit_best(gt, ceil, it, default, 'maxceil')", "    return _limit_best(lt, ceil, it, default, 'maxceil')")], 'C08.R2'),
+        ('set-value-after-finish-allowed', [(MODELS, """    def set_atomic_value(self, s: Atomic, value: MvalT_co, /, *, world: int = 0):
+        self._check_not_finished()""", """    def set_atomic_value(self, s: Atomic, value: MvalT_co, /, *, world: int = 0):""")], 'C08.R3'),
+    ],
+    'C09': [
+        ('necessity-group-score-reads-candidate-score', [(KFDE, """            if self.score_candidate(target) > 0:
+                return 1.0
+            return -1.0 * self[NodeCount][target.branch][target.node]""", """            if target['candidate_score'] > 0:
+                return 1.0
+            return -1.0 * self[NodeCount][target.branch][target.node]""")], 'C09.R1'),
+        ('rule-reads-search-option', [(KFDE, """        def _get_node_targets(self, node, branch, /):
+            # Only count least-applied-to nodes""", """        def _get_node_targets(self, node, branch, /):
+            if not self.tableau.opts['is_group_optim']:
+                return
+            # Only count least-applied-to nodes""")], 'C09.R2'),
+        ('isleast-subscript-read', [(HELPERS, "        return self.min(branch) >= self[branch].get(node, 0)", "        return self.min(branch) >= self[branch][node]")], 'C09.R4'),
+        ('select-best-target-returns-new-target', [(TAB, """            if not is_rank_optim:
+                return target
+            if target['candidate_score'] == target['max_candidate_score']:""", """            if not is_rank_optim:
+                return Target(target)
+            if target['candidate_score'] == target['max_candidate_score']:""")], 'C09.R2'),
+        ('build-stops-after-one-step', [(TAB, "        for _ in self.stepiter(): pass\n        return self", "        for _ in self.stepiter(): break\n        return self")], None),
+    ],
+    'C12': [
+        ('polish-string-swapped-operators', [(SYMDATA, "            Operator.Conjunction: 'K',\n            Operator.Disjunction: 'A',", "            Operator.Conjunction: 'A',\n            Operator.Disjunction: 'K',")], 'C12.R1'),
+        ('polish-parse-table-missing-constant', [(SYMDATA, "            's' : (Constant, 3),\n", "")], 'C12.R1'),
+        ('two-symbols-same-string', [(SYMDATA, "        Operator.Necessity              :  'N',\n        Quantifier.Universal   : 'L',", "        Operator.Necessity              :  'L',\n        Quantifier.Universal   : 'L',")], 'C12.R2'),
+        ('writer-operands-before-operator', [(WRITING, "        return ''.join(map(self._write, (item.operator, *item)))", "        return ''.join(map(self._write, (*item, item.operator)))")], 'C12.R3'),
+        ('parser-reads-one-operand-less', [(PARSING, "        return oper(self._read(context) for _ in range(oper.arity))", "        return oper(self._read(context) for _ in range(oper.arity - 1))")], 'C12.R3'),
+        ('subscript-zero-written', [(WRITING, "        if s == 0: return ''\n", "")], 'C12.R3'),
+        ('argstr-comma-separator', [(COLLECT, "        return ':'.join(map(__class__._argstr_lw, self))", "        return ','.join(map(__class__._argstr_lw, self))")], 'C12.R3'),
+        ('standard-writer-negated-identity-for-any-unary', [(WRITING, """                oper is Operator.Negation and
+                type(s) is Predicated""", """                type(s) is Predicated""")], 'C12.R5'),
+        ('multi-char-parse-key', [(SYMDATA, "            '!' : (Predicate.System, Predicate.Existence),", "            'E!' : (Predicate.System, Predicate.Existence),")], 'C12.R1'),
+    ],
+    'C13': [
+        ('context-raises-valueerror', [(PARSING, """        if len(self.input) > self.pos:
+            raise ParseError(self._unexp_msg())""", """        if len(self.input) > self.pos:
+            raise ValueError(self._unexp_msg())""")], 'C13.R1'),
+        ('auto-predicate-valueerror-not-converted', [(PARSING, """        try:
+            pred = Predicate(*coords, arity)
+        except ValueError as err:
+            raise ParseError(
+                f'Error auto-creating predicate {coords=} {arity=}: {err}')
+        self.predicates.add(pred)
+        return pred(params)
+
+    def _read_quantified""", """        pred = Predicate(*coords, arity)
+        self.predicates.add(pred)
+        return pred(params)
+
+    def _read_quantified""")], 'C13.R1'),
+        ('frozen-store-guard-dropped', [(PARSING, "            if not self.opts['auto_preds'] or not isinstance(self.predicates, Predicates):\n                raise\n            coords = err.coords\n        else:\n            return pred(self._read_params(context, pred.arity))", "            if not self.opts['auto_preds']:\n                raise\n            coords = err.coords\n        else:\n            return pred(self._read_params(context, pred.arity))")], 'C13.R2'),
+        ('unbind-without-occurs-check', [(PARSING, """        if self.check_bound(v) not in s.variables:
+            raise BoundVariableError(
+                f"Unused bound variable {v.spec} near position {self.pos}")
+        self.bound.remove(v)""", """        self.check_bound(v)
+        self.bound.remove(v)""")], 'C13.R3'),
+        ('variable-parameter-not-checked', [(PARSING, """        if ctype is Variable:
+            context.check_bound(param)
+        return param""", """        return param""")], 'C13.R3'),
+        ('subscript-loop-no-advance', [(PARSING, """            digits.append(context.value(cur))
+            context.advance()""", """            digits.append(context.value(cur))""")], 'C13.R4'),
+        ('parser-remembers-last-input', [(PARSING, """        with ParseContext(input, self.table, self.predicates) as context:
+            return self._read(context)""", """        self.opts['last'] = input
+        with ParseContext(input, self.table, self.predicates) as context:
+            return self._read(context)""")], 'C13.R5'),
+        ('unexp-msg-without-current-check', [(PARSING, """        if self.assert_current() is not ctype:
+            raise ParseError(self._unexp_msg())""", """        if self.type(self.current(), None) is not ctype:
+            raise ParseError(self._unexp_msg())""")], 'C13.R1'),
+    ],
+    'C14': [
+        ('orderitems-ignores-length', [(LEX, "            it = zip_longest(lhs.sort_tuple, rhs.sort_tuple, fillvalue=0)", "            it = zip(lhs.sort_tuple, rhs.sort_tuple)")], 'C14.R1'),
+        ('eq-separate-from-order', [(LEX, "    __lt__ = __le__ = __gt__ = __ge__ = __eq__ = wrapper()\n\n    def __hash__(self):\n        return self.hash", "    __lt__ = __le__ = __gt__ = __ge__ = wrapper()\n\n    def __eq__(self, other):\n        return self is other\n\n    def __hash__(self):\n        return self.hash")], 'C14.R1'),
+        ('predicated-key-omits-params', [(LEX, """            *pred.sort_tuple,
+            *(n for p in params for n in p.sort_tuple))""", """            *pred.sort_tuple)""")], 'C14.R1'),
+        ('cache-eviction-keeps-keys', [(LEX, """                    for k in rev.pop(old):
+                        del(idx[k])""", """                    rev.pop(old)""")], 'C14.R4'),
+        ('cache-size-zero-crash', [(LEX, """                if not queue.maxlen:
+                    # Zero-size cache: nothing is retained.
+                    return
+""", "")], 'C14.R4'),
+        ('lexical-setter-after-construction', [(LEX, """    def unquantify(self, c: Constant, /):""", """    def rebind(self, v):
+        self.variable = v
+
+    def unquantify(self, c: Constant, /):""")], 'C14.R3'),
+        ('readonly-not-enabled', [('pytableaux/lang/__init__.py', "    lex.nosetattr.enabled = True\n", "")], 'C14.R3'),
+        ('hash-from-spec', [(LEX, "        return hash((__class__, item.sort_tuple))", "        return hash((__class__, item.spec))")], 'C14.R1'),
+    ],
+    'C15': [
+        ('predicated-substitute-first-only', [(LEX, "        return self.predicate(pnew if p == pold else p for p in self)", "        return self.predicate(pnew if p == pold and i == 0 else p for i, p in enumerate(self))")], 'C15.R1'),
+        ('quantified-quantifiers-omits-own', [(LEX, "        return tuple(chain((self.quantifier,), self.sentence.quantifiers))", "        return tuple(self.sentence.quantifiers)")], 'C15.R2'),
+        ('unquantify-swapped-arguments', [(LEX, "        return self.sentence.substitute(Constant(c), self.variable)", "        return self.sentence.substitute(self.variable, Constant(c))")], 'C15.R1'),
+        ('operated-operators-children-first', [(LEX, """            (self.operator, *chain.from_iterable(
+                s.operators for s in self)))""", """            (*chain.from_iterable(
+                s.operators for s in self), self.operator))""")], 'C15.R2'),
+        ('operated-constants-first-operand-only', [(LEX, "        return frozenset(chain.from_iterable(s.constants for s in self))", "        return frozenset(self.lhs.constants)")], 'C15.R2'),
+        ('negative-strips-any-unary', [(LEX, "        if type(self) is Operated and self.operator is Operator.Negation:\n            return self.lhs", "        if type(self) is Operated and self.operator.arity == 1:\n            return self.lhs")], 'C15.R1'),
+        ('quantified-substitute-drops-body', [(LEX, "        return self.quantifier(self.variable, self.sentence.substitute(pnew, pold))", "        return self.quantifier(self.variable, self.sentence)")], 'C15.R1'),
+    ],
+    'C16': [
+        ('tree-count-overwritten', [(TAB, "                tree.descendant_node_count += len(child.nodes) + child.descendant_node_count", "                tree.descendant_node_count = len(child.nodes) + child.descendant_node_count")], 'C16.R'),
+        ('closed-branch-listed-open', [(TAB, """            if not branch.closed:
+                # Append to linqset will raise duplicate value error.
+                opens.append(branch)""", """            opens.append(branch)""")], 'C16.R2'),
+        ('history-appended-twice', [(TAB, "            self.flag |= self.flag.STARTED\n\n        tab_listeners", "            self.flag |= self.flag.STARTED\n            history.append(target._entry)\n\n        tab_listeners")], 'C16.R2'),
+        ('append-to-closed-branch-allowed', [(COMMON, """        if self.closed:
+            raise Emsg.IllegalState('Already closed')
+        if not isinstance(node, Node):""", """        if not isinstance(node, Node):""")], 'C16.R3'),
+        ('fork-not-copy-of-parent', [(TAB, "            branch = parent.copy(parent = parent)", "            branch = parent.copy()")], 'C16.R4'),
+        ('parent-stat-is-origin', [(TAB, "                Tableau.StatKey.PARENT     : branch.parent})", "                Tableau.StatKey.PARENT     : branch.parent and branch.origin})")], 'C16.R2'),
+        ('cache-entry-shared-with-parent', [(HELPERS, "                self[branch] = copy(self[branch.parent])", "                self[branch] = self[branch.parent]")], 'C16.R4'),
+        ('closed-step-off-by-one', [(TAB, "            bstat[Tableau.StatKey.STEP_CLOSED] = self.current_step", "            bstat[Tableau.StatKey.STEP_CLOSED] = self.current_step + 1")], 'C16.R2'),
+        ('helper-applies-rule', [(HELPERS, "            self[branch][w1].add(w2)\n", "            self[branch][w1].add(w2)\n            self.rule.apply(Target(branch=branch))\n")], 'C16.R2'),
+    ],
+    'C18': [
+        ('qset-insert-forgets-set', [(HYBRIDS, "        self._seq_.insert(index, value)\n        self._set_.add(value)", "        self._seq_.insert(index, value)")], 'C18.R'),
+        ('qset-setitem-adds-old', [(HYBRIDS, "        else:\n            self._set_.add(value)\n        self._hook_done(arriving, leaving)", "        else:\n            self._set_.add(old)\n        self._hook_done(arriving, leaving)")], 'C18.R'),
+        ('qset-slice-no-distinct-check', [(HYBRIDS, """        if len(set(values)) != len(values):
+            raise Emsg.DuplicateValue(values)
+""", "")], 'C18.R'),
+        ('qset-delitem-set-before-check', [(HYBRIDS, """        self._hook_check(EMPTY_SEQ, values)
+        del self._seq_[key]
+        self._set_.difference_update(values)""", """        self._set_.difference_update(values)
+        self._hook_check(EMPTY_SEQ, values)
+        del self._seq_[key]""")], 'C18.R'),
+        ('linqset-setitem-override-removed', [(LINKED, "    def __setitem__(self, i, value) -> None:\n        if isinstance(i, SupportsIndex):\n            links = self._link_at(i),", "    def _unused_setitem(self, i, value) -> None:\n        if isinstance(i, SupportsIndex):\n            links = self._link_at(i),")], 'C18.R'),
+        ('linqset-rekey-one-pass', [(LINKED, """        for v in leaving:
+            del table[v]
+        for link in links:
+            table[link.value] = link""", """        for v, link in zip(leaving, links):
+            del table[v]
+            table[link.value] = link""")], 'C18.R6'),
+        ('linqset-unlink-keeps-table', [(LINKED, "        super()._unlink(link)\n        del self.__table[link.value]", "        super()._unlink(link)")], 'C18.R1'),
+        ('predicates-lookup-not-cleared', [(COLLECT, "    def clear(self):\n        super().clear()\n        self._lookup.clear()", "    def clear(self):\n        super().clear()")], 'C18.R1'),
+        ('predicates-hook-done-skips-leaving', [(COLLECT, """        for pred in leaving:
+            for ref in pred.refs:
+                pop(ref, None)
+            pop(pred, None)""", """        for pred in leaving:
+            pop(pred, None)""")], 'C18.R1'),
+        ('qset-setitem-index-no-rollback', [(HYBRIDS, """        self._set_.remove(old)
+        try:
+            self._seq_[index] = value
+        except:
+            self._set_.add(old)
+            raise
+        else:
+            self._set_.add(value)""", """        self._set_.remove(old)
+        self._seq_[index] = value
+        self._set_.add(value)""")], 'C18.R2'),
+    ],
+    'C19': [
+        ('text-translator-loses-visit', [(TEXTW, "    visit_subscript = noop\n", "")], 'C19.R1'),
+        ('marking-key-missing-in-latex', [(SYMDATA, "            (Marking.tableau, 'access'): '\\\\mathcal{R}',\n", "")], 'C19.R2'),
+        ('access-nodes-not-rendered', [(NODES, """        elif isinstance(obj, proof.AccessNode):
+            yield types[world].for_object(obj['world1'])
+            yield types[access]()
+            yield types[world].for_object(obj['world2'])
+""", "")], 'C19.R3'),
+        ('template-closure-mark-on-every-flag', [('pytableaux/proof/writers/templates/text/nodes.jinja2', "{{ '(x)' if node.flag == 'closure' else '; ' -}}", "{{ '(x)' if node.flag else '; ' -}}")], 'C19.R3'),
+        ('new-element-without-visitors', [(NODES, """        elif isinstance(obj, proof.EllipsisNode):
+            yield types[ellipsis]()""", """        elif isinstance(obj, proof.EllipsisNode):
+            yield types[ellipsis]()
+            yield types[wrapper]()""")], 'C19.R1'),
+        ('latex-writer-unregistered', [('pytableaux/proof/writers/doctree/__init__.py', "registry.register(LatexTabWriter)\n", "")], 'C19.R3'),
+    ],
+    'C20': [
+        ('extension-includes-false', [(MODELS, "            data = self._get_predicate_data_part(predicate, interp.having(*'TB'))", "            data = self._get_predicate_data_part(predicate, interp.having(*'TBF'))")], 'C20.R2'),
+        ('anti-extension-for-two-valued', [(MODELS, """            if not many_valued:
+                return
+            data = self._get_predicate_data_part(predicate, interp.having(*'BF'))""", """            data = self._get_predicate_data_part(predicate, interp.having(*'BF'))""")], 'C20.R2'),
+        ('sentence-map-unsorted', [(MODELS, "                    for sentence in sorted(base)])", "                    for sentence in base])")], 'C20.R3'),
+        ('worlds-unsorted', [(MODELS, "        worlds = sorted(frames)", "        worlds = list(frames)")], 'C20.R'),
+        ('having-misses-value', [(MODELS, "            if value in values:\n                yield params", "            if value in values and value != 'B':\n                yield params")], 'C20.R2'),
+        ('access-flat-unsorted-successors', [(MODELS, "                w2s = sorted(self[w1]) if sort else self[w1]", "                w2s = self[w1]")], None),
+        ('export-reads-opaques-for-atomics', [(MODELS, "                Atomics = self._get_sentencemap_data(self.atomics),", "                Atomics = self._get_sentencemap_data(self.opaques),")], 'C20.R1'),
+        ('nonmodal-exports-nothing', [(MODELS, "            return frames[0].get_data()", "            return {}")], 'C20.R1'),
+    ],
+})
+
+REFACTORS.update({
+    'C08': [
+        ('mh-existential-equivalent', [(MH, """        if values.T in valset:
+            return values.T
+        if len(valset) > 1:
+            return values.N
+        return values.F""", """        if values.T in valset:
+            return values.T
+        if values.N in valset and values.F in valset:
+            return values.N
+        return values.F""")]),
+    ],
+    'C13': [
+        ('unbind-equivalent', [(PARSING, """        if self.check_bound(v) not in s.variables:
+            raise BoundVariableError(""", """        self.check_bound(v)
+        if v not in s.variables:
+            raise BoundVariableError(""")]),
+    ],
+    'C14': [
+        ('orderitems-explicit-loop', [(LEX, """        for cmp in filter(None, starmap(opr.sub, it)):
+            return cmp
+        return 0""", """        for a, b in it:
+            if a != b:
+                return a - b
+        return 0""")]),
+    ],
+    'C15': [
+        ('predicated-substitute-tuple-form', [(LEX, "        return self.predicate(pnew if p == pold else p for p in self)", "        return self.predicate(tuple(pnew if q == pold else q for q in self.params))")]),
+    ],
+    'C18': [
+        ('qset-insert-reordered-updates', [(HYBRIDS, "        self._seq_.insert(index, value)\n        self._set_.add(value)", "        self._set_.add(value)\n        self._seq_.insert(index, value)")]),
+    ],
+    'C20': [
+        ('worlds-sorted-via-list', [(MODELS, "        worlds = sorted(frames)", "        worlds = sorted(list(frames.keys()))")]),
+    ],
+    'C16': [
+        ('tree-count-explicit-sum', [(TAB, "                tree.descendant_node_count += len(child.nodes) + child.descendant_node_count", "                tree.descendant_node_count = tree.descendant_node_count + len(child.nodes) + child.descendant_node_count")]),
+    ],
+})
